@@ -73,6 +73,7 @@ func c17Histories() []c17History {
 }
 
 var digitsRe = regexp.MustCompile(`/[0-9]+\.zng`)
+var indexRe = regexp.MustCompile(`\[[0-9:]+\] with (length|capacity) [0-9]+`)
 
 func pathClass(p string) string {
 	p = rep.Normalize(p)
@@ -94,6 +95,7 @@ func errClass(err error) string {
 	}
 	s := rep.Normalize(err.Error())
 	s = digitsRe.ReplaceAllString(s, "/<n>.zng")
+	s = indexRe.ReplaceAllString(s, "[#] with length #")
 	return rep.Short(s, 160)
 }
 
